@@ -245,7 +245,8 @@ func (e *SpecEnv) eval(x *SX) (*SV, error) {
 		st := e.stateOf(m)
 		mv := st.toTerm(e.value(m), m.T)
 		kt := e.vc.mapKeyTerm(st, mt, e.value(k))
-		return &SV{V: And(Not(Eq(mv, IntC(0))), Select(e.vc.mapDom(st, mt, mv), kt)), T: types.Typ[types.Bool]}, nil
+		// membership is read in the evaluation state; old(m) only fixes which map is meant
+		return &SV{V: And(Not(Eq(mv, IntC(0))), Select(e.vc.mapDom(e.st, mt, mv), kt)), T: types.Typ[types.Bool]}, nil
 	}
 	return nil, fmt.Errorf("unsupported spec expression %s", x)
 }
@@ -1045,16 +1046,76 @@ func (e *SpecEnv) evalCall(x *SX) (*SV, error) {
 				return nil, err
 			}
 			return &SV{V: Ge(e.refKey(v), e.vc.A0), T: types.Typ[types.Bool]}, nil
+		case "dynptr":
+			// dynptr(x, T): the *T held by the interface value x (the code under contract asserts x.(*T) itself; the
+			// spec only names the pointer). Nil when x holds a value of another type.
+			if len(args) != 2 {
+				return nil, fmt.Errorf("dynptr(interface value, struct type)")
+			}
+			v, err := e.eval(args[0])
+			if err != nil {
+				return nil, err
+			}
+			tv, err := e.eval(args[1])
+			if err != nil {
+				return nil, err
+			}
+			tm, ok := tv.V.(typeMarker)
+			if !ok {
+				return nil, fmt.Errorf("dynptr: second argument must be a type")
+			}
+			pt := types.NewPointer(tm.T)
+			if _, isIface := under(v.T).(*types.Interface); !isIface {
+				return nil, fmt.Errorf("dynptr needs an interface value")
+			}
+			iv := e.stateOf(v).toIface(e.value(v))
+			return &SV{V: Ite(Eq(iv.Tag, e.vc.typeTag(pt)), iv.Data, IntC(0)), T: pt}, nil
+		case "spawnedTotal":
+			// spawnedTotal(): number of go statements executed so far (ghost)
+			ki := e.vc.reg.get("ghost:spawnedTotal", 0, IntSort, nil)
+			return &SV{V: e.st.heapVar(ki), T: types.Typ[types.Int]}, nil
+		case "spawned":
+			// spawned("f"): number of go statements that started function f so far (ghost)
+			if len(args) != 1 || args[0].K != "str" {
+				return nil, fmt.Errorf("spawned() needs a function name in quotes")
+			}
+			name := args[0].Str
+			ki := e.vc.reg.get("ghost:spawned:"+name, 0, IntSort, nil)
+			return &SV{V: e.st.heapVar(ki), T: types.Typ[types.Int]}, nil
+		case "taken", "lastTaken":
+			// taken(ch): number of values received from channel ch so far; lastTaken(ch): the latest of them (ghost)
+			v, err := e.eval(args[0])
+			if err != nil {
+				return nil, err
+			}
+			ct, ok := under(v.T).(*types.Chan)
+			if !ok {
+				return nil, fmt.Errorf("%s() needs a channel", fn.Name)
+			}
+			st := e.stateOf(v)
+			cht := st.toTerm(e.value(v), v.T)
+			if fn.Name == "taken" {
+				ki := e.vc.reg.get("ghost:taken<"+chanKey(v.T)+">", 1, IntSort, nil)
+				return &SV{V: Select(st.heapVar(ki), cht), T: types.Typ[types.Int]}, nil
+			}
+			s := scalarSort(ct.Elem())
+			if s == nil {
+				return nil, fmt.Errorf("lastTaken() needs a channel of scalar elements")
+			}
+			kl := e.vc.reg.get("ghost:lasttaken<"+chanKey(v.T)+">", 1, s, nil)
+			return &SV{V: Select(st.heapVar(kl), cht), T: ct.Elem()}, nil
 		case "sent":
 			// sent(ch): number of messages placed on channel ch so far (ghost)
 			v, err := e.eval(args[0])
 			if err != nil {
 				return nil, err
 			}
+			// the count is read in the evaluation state; only the channel expression keeps its own state, so that
+			// sent(old(x.ch)) is "what has been sent by now on the channel x.ch denoted at entry"
 			st := e.stateOf(v)
 			key := "ghost:sent<" + chanKey(v.T) + ">"
 			ki := e.vc.reg.get(key, 1, IntSort, nil)
-			return &SV{V: Select(st.heapVar(ki), st.toTerm(e.value(v), v.T)), T: types.Typ[types.Int]}, nil
+			return &SV{V: Select(e.st.heapVar(ki), st.toTerm(e.value(v), v.T)), T: types.Typ[types.Int]}, nil
 		}
 		if sf, ok := e.vc.prog.CS.SpecFuncs[fn.Name]; ok {
 			return e.applySpecFunc(sf, args)
